@@ -600,6 +600,9 @@ class C13(v_hyp.Spec):
             if rc != 0 or "error:" in gerr:
                 out.append({"status": "inconclusive", "what": "gcc -E rejects the unit: " + gerr.strip()[-300:]})
                 continue
+            if o.get("kind") == "skipped":
+                out.append({"status": "inconclusive", "what": o["crash"]})
+                continue
             if "crash" in o:
                 out.append({"status": "fail", "kind": o["kind"], "what": "worker %s in preprocess: %s" % (o["kind"], o["crash"])})
                 continue
